@@ -520,6 +520,10 @@ func runHoleTree(r *ev.Run, id string, idx int) {
 	if nviol < 3 {
 		checkTreeAfterFault(r, rng, st, root, schemaBlobs, viol)
 	}
+	// ---- a blob BELOW a bytesRef part unfetchable, through every read path (deepfaults.go)
+	if nviol < 3 {
+		checkDeepFaults(r, r.Rand("deepfault/"+id), st, root.ref, want, "hole-tree", viol)
+	}
 
 	// ---- control: io.ReadAll (fresh memory)
 	if nviol < 3 {
